@@ -18,6 +18,8 @@ except ImportError:  # replay interpreter: concrete mode only
     z3 = None
 
 sys.setrecursionlimit(20000)
+if hasattr(sys, "set_int_max_str_digits"):
+    sys.set_int_max_str_digits(0)   # z3's BitVecVal renders constants as decimal text
 
 MAX_WIDTH = 8192
 
@@ -174,6 +176,26 @@ def low(e, k):
     if len(_low_cache) > 400000:
         _low_cache.clear()
     return r
+
+
+def concat_bytes(items):
+    """bit-vector of 8*len(items) bits, big-endian; runs of concrete bytes become one constant"""
+    parts = []
+    run = 0
+    runlen = 0
+    for it in items:
+        if isinstance(it, int):
+            run = (run << 8) | it
+            runlen += 1
+        else:
+            if runlen:
+                parts.append(z3.BitVecVal(run, 8 * runlen))
+                run = 0
+                runlen = 0
+            parts.append(it.lowbits(8))
+    if runlen:
+        parts.append(z3.BitVecVal(run, 8 * runlen))
+    return z3.Concat(*parts) if len(parts) > 1 else parts[0]
 
 
 def bv(v, w):
